@@ -76,6 +76,15 @@ let dispatch fn args = match fn, args with
   | "detect_marker", [endobj; l] ->
     (match detect_marker true (bool_of_str endobj) (bytes_of_hex l) with
      | DRes i -> hex_of_z i | DOOB -> "OUT-OF-BOUNDS" | DOOF -> "OUT-OF-FUEL")
+  | "post_process_params", [p; c; b; k] ->
+    let o s = if s = "-" || s = "" then None else Some (z_of_hex s) in
+    (match post_process_params (o p) (o c) (o b) (o k) with
+     | PPass -> "ok" | PPErr -> "err"
+     | PPRows (c, rs, rl, bpp) -> "ok")
+  | "predictor_row_params", [p; c; b; k] ->
+    (match predictor_row_params (z_of_hex p) (z_of_hex c) (z_of_hex b) (z_of_hex k) with
+     | None -> "err"
+     | Some ((rs, rl), bpp) -> "ok:" ^ hex_of_z rs ^ ":" ^ hex_of_z rl ^ ":" ^ hex_of_z bpp)
   | "buf_to_int64", [b] -> hex_of_z (buf_to_int64 (bytes_of_hex b))
   | _ -> failwith ("unknown function " ^ fn)
 let () = main dispatch
